@@ -327,6 +327,10 @@ func main() {
 	sum := vh.NewSummary("C01", o,
 		"histories of Read/RawRecord calls on real Transforms (seven built-in formats over generated and damaged inputs, plus a scripted caller-supplied handler); non-trivial = the history reaches a terminal result and issues >=1 further call after it; distinct by (handler kind, input/script, op list)")
 	cw := vh.NewCaseWriter(o, "C01", "Base.ErrClass Model.Latch", "c01case", "check_case")
+	// the same latch cases once more, through the interpretation of the statements extracted from
+	// transform.go (Gen/LatchShape.v); separate files, so that the hand-written model is still
+	// compared when the extracted shape is no longer recognised
+	cwSrc = vh.NewCaseWriter(o, "C01s", "Base.ErrClass Model.Latch Model.LatchShape", "c01case", "check_case_src")
 	fixtures := append(vh.Fixtures(), vh.ExtraFixtures()...)
 	total := o.Count(1500, 40000)
 	// a call into the library that never returns is a violation too ("every Read call returns"):
@@ -359,7 +363,8 @@ func main() {
 	if o.Replay != "" {
 		replay(o, sum, cw, fixtures, schemas)
 		cw.Flush()
-		sum.CaseFiles = cw.Files
+		cwSrc.Flush()
+		sum.CaseFiles = append(cw.Files, cwSrc.Files...)
 		sum.Write(o)
 		return
 	}
@@ -458,7 +463,8 @@ func main() {
 		finish(sum, cw, ei, fixtures[fi].Format, desc, log, res, log.FmtIdx)
 	}
 	cw.Flush()
-	sum.CaseFiles = cw.Files
+	cwSrc.Flush()
+	sum.CaseFiles = append(cw.Files, cwSrc.Files...)
 	sum.Write(o)
 }
 
@@ -471,6 +477,37 @@ func finish(sum *vh.Summary, cw *vh.CaseWriter, ei *vh.ErrIntern, kind string, d
 		sum.Hist("no-terminal-within-cap")
 	}
 	sum.Hist(fmt.Sprintf("ops:%d-%d", len(res.Ops)/10*10, len(res.Ops)/10*10+9))
+	// what the ingester returned on each call the transform made (the paths of the extracted
+	// statements of transform.Read that the logged runs drive the model and the interpreter through)
+	for _, ev := range log.Ing {
+		switch {
+		case ev.Err == nil:
+			sum.Hist("ingester-call:success")
+		case ev.Cont && (ev.Bytes != nil || ev.Raw != nil):
+			sum.Hist("ingester-call:continuable-error-with-bytes-or-raw")
+		case ev.Cont:
+			sum.Hist("ingester-call:continuable-error")
+		case vh.IsFailed(ev.Err):
+			sum.Hist("ingester-call:failed-but-declared-noncontinuable")
+		case ev.Bytes != nil || ev.Raw != nil:
+			sum.Hist("ingester-call:terminal-error-with-bytes-or-raw")
+		default:
+			sum.Hist("ingester-call:terminal-error")
+		}
+	}
+	for i, op := range res.Ops {
+		if op != "RawRecord" {
+			continue
+		}
+		switch {
+		case i == 0 || !contains(res.Ops[:i], "Read"):
+			sum.Hist("rawrecord:before-any-read")
+		case res.Outs[i].Err != nil:
+			sum.Hist("rawrecord:after-failed-read")
+		default:
+			sum.Hist("rawrecord:after-successful-read")
+		}
+	}
 	desc["outs"] = res.Outs
 	sum.Sample(desc)
 
@@ -548,6 +585,7 @@ func finish(sum *vh.Summary, cw *vh.CaseWriter, ei *vh.ErrIntern, kind string, d
 	}
 	term := fmt.Sprintf("LCase (mkLCase %s %s %s %s)", vh.CoqList(script), coqOps(res.Ops), coqOuts(res.Outs), vh.CoqN(log.IngCall))
 	cw.Add(term, desc)
+	cwSrc.Add(term, desc)
 
 	// ---- built-in ingester case: logged reader steps -> ingester results and reader calls ----
 	if fmtIdx >= 0 {
@@ -625,7 +663,18 @@ func fatalTypeName(fmtIdx int) string {
 		"fixedlength.ErrInvalidFixedLength", "json.ErrNodeReadingFailed", "xml.ErrNodeReadingFailed"}[fmtIdx]
 }
 
+var cwSrc *vh.CaseWriter
+
 func mockRawID(m *mockRaw, res *runResult) int { return m.id }
+
+func contains(xs []string, x string) bool {
+	for _, y := range xs {
+		if y == x {
+			return true
+		}
+	}
+	return false
+}
 
 // replay re-runs exactly the case stored in a replay file on the current tree and prints both
 // the operations and what the implementation returned.
